@@ -15,6 +15,7 @@ def nontrivial(p):
 
 
 def run(ctx):
+    nf.model_unit_check(ctx)
     n = 200 if ctx.quick else 4000
     info, _ = nf.check_cases(ctx, mode="c08", n=n, module=MODULE, cfg=CFG, diag_cfg=DIAG, chunks=4,
                              timeout=900 if ctx.quick else 3000, nontrivial_fn=nontrivial)
